@@ -59,7 +59,14 @@ def get_map(t):
     if t not in _MAPS:
         from dali.device.helpers import DeviceInstanceTypeMapper
         m = DeviceInstanceTypeMapper()
-        if t is not None:
+        if t == "sparse":
+            # one instance per device, of a type that depends on the device: "exactly one instance of type X on
+            # device A" holds for some (A, X) and not for others
+            for a in range(64):
+                m.add_type(short_address=a, instance_number=a % 32, instance_type=[1, 3, 4, 2, 0][a % 5])
+                if a % 7 == 0:
+                    m.add_type(short_address=a, instance_number=(a + 1) % 32, instance_type=[1, 3, 4, 2, 0][a % 5])
+        elif t is not None:
             for a in range(64):
                 for i in range(32):
                     m.add_type(short_address=a, instance_number=i, instance_type=t)
@@ -362,6 +369,13 @@ def _enum_shard(arg):
                 n += 1
                 if c is not None and (dt != 0 or type(c).__name__ not in GENERIC):
                     nt += 1
+                if c is not None and dt != 0 and ((v & 0x100) == 0 or (0xA0 <= (v >> 8) <= 0xCB)):
+                    # direct arc power and special commands have no device type: whatever was announced before,
+                    # the data byte is a level / a parameter, never an extended opcode
+                    c0 = decode_check(16, v, 0, None, False, out)
+                    if c0 is not None and (type(c0) is not type(c) or str(c0) != str(c)):
+                        out.append(("C01:devicetype-changes-a-command-that-has-none",
+                                    "16-bit %#06x decodes as %s with devicetype %d but as %s with devicetype 0" % (v, c, dt, c0)))
                 if out:
                     flush({"kind": "decode", "bits": 16, "value": v, "dt": dt, "map": "no"})
         res.sample({"kind": "decode", "bits": 16, "value": start + 5 * stride, "dt": dts[0], "map": "no"}, cls="16-bit")
@@ -387,6 +401,20 @@ def _enum_shard(arg):
                 flush({"kind": "decode", "bits": 24, "value": v, "dt": 0, "map": mc})
         res.sample({"kind": "decode", "bits": 24, "value": 0x8000 | (5 << 17) | (3 << 10) | 2, "dt": 0, "map": mc},
                    cls="device/instance event with map")
+    elif kind == "evsparse":
+        _, lo, hi, stride = arg
+        for u in range(lo, hi, stride):
+            # device-scheme events (bit 23 = 0, bit 16 = 0, bit 15 = 0): short(6) | instance type(5) | data(10), and
+            # instance-scheme ones, decoded with a map that lists one instance per device
+            v = ((u >> 15) << 17) | (((u >> 10) & 0x1F) << 10) | (u & 0x3FF)
+            for vv in (v, v | 0x800000 if (u & 3) == 0 else v):
+                c = decode_check(24, vv, 0, "sparse", True, out, hist)
+                n += 1
+                nt += 1
+                if out:
+                    flush({"kind": "decode", "bits": 24, "value": vv, "dt": 0, "map": "sparse"})
+        res.sample({"kind": "decode", "bits": 24, "value": (5 << 17) | (3 << 10) | 2, "dt": 0, "map": "sparse"},
+                   cls="device-scheme event with a sparse map")
     elif kind == "odd":
         _, lengths = arg
         for bits in lengths:
@@ -654,7 +682,7 @@ def decode_strategy():
     other = st.integers(1, 64).filter(lambda b: b not in (16, 24)).flatmap(
         lambda b: st.tuples(st.just(b), st.one_of(st.just(0), st.just((1 << b) - 1), st.integers(0, (1 << b) - 1))))
     dt = st.one_of(st.sampled_from([0, 1, 4, 5, 6, 8]), st.integers(0, 255))
-    mp = st.sampled_from(["no"] + [m for m in MAP_CLASSES])
+    mp = st.sampled_from(["no", "sparse"] + [m for m in MAP_CLASSES])
     return st.one_of(
         st.tuples(st.just(16), b16, dt, mp),
         st.tuples(st.just(24), b24, dt, mp),
@@ -865,6 +893,9 @@ def run(ctx):
         for k in range(4):
             lo = k << 19
             shards.append(("evmap", mc, lo + (s % stev), lo + (1 << 19), stev))
+    for k in range(4):
+        lo = k << 19
+        shards.append(("evsparse", lo + (s % stev), lo + (1 << 19), stev * 3))
     odd = [b for b in range(1, 65) if b not in (16, 24)]
     for k in range(0, len(odd), 8):
         shards.append(("odd", odd[k:k + 8]))
